@@ -640,6 +640,19 @@ def check_C07(work):
         o["hash"], o["sec"] = "1", "2"
         jobs.append(seq_job("C07-shard-%d" % i, "sharded-set", sharded("W", 2, total), [o], world=world, draw=ALWAYS,
                             cfg_extra={"seq": True, "shardcap": max(1, (total + 1) // 2)}, shard_script=[1] * 8))
+    # (c) an outside party removes one entry while the maintenance runs ("things do disappear from caches"): every call of the
+    # maintenance in turn is the moment of the removal; the outcome must still be the planner's on what was listed (PruneOKV) --
+    # in particular every OTHER reprieved entry still moves to the back of the queue
+    vfiles = [("r1", 0, "read"), ("r2", 1, "read"), ("u1", 2, "unread"), ("r3", 3, "read"), ("u2", 4, "unread")]
+    for cap in (2, 3):
+        for victim in ("r1", "r2", "u1", "r3"):
+            for at in range(2, Q(34, 60), Q(2, 1)):
+                world = population_ops("W", vfiles, 0)
+                p1 = part(1, plain("W", cap), with_vals([op("set", "znew", "new")], 1), ALWAYS)
+                stg = sched_stage(p1, adv=[{"at": at, "path": "W/%s" % victim}], allpoints=True)
+                cfg = {"roots": [root("W", "plain", "w")], "front": "plain", "cap": cap, "seq": True}
+                jobs.append(job("C07-vanish-%d-%s-%d" % (cap, victim, at), [seq_stage(part(9, plain("SRC/none"), world, NEVER)), stg], cfg, rnd(1, seed()),
+                                fam="plain-set:entry-vanishes"))
     mons = ["PruneOK", "RemovalOK", "DirValid"]
     st = trace_check(work, out, jobs, mons, tag="c07")
     st = add_pool(work, out, st, ["PruneOK"], want=('seq',))
@@ -1068,8 +1081,43 @@ def check_C14(work):
                         (pt["checker"].startswith("cleared") and disagree(pt) and len([x for x in pt["rs"] if x != "none"]) >= 2 and pt["op"] in ("get", "ensure")))
 
 
+def c15_fault_jobs():
+    """Lookups that reach read-only levels (ReadOnlyCache alone; stacked caches with a plain / sharded writer) while every library call
+    fails in turn (stale handle, I/O error, vanished entry): nothing under a read-only root may change then either."""
+    jobs = []
+    hk = dict(hash="1", sec="2")
+    a1, b1 = shard_ids(1, 2, 2)
+    plant = lambda root_, kind, key, val: op("mkfile", path="@TOP@/%s/%s" % (root_ if kind == "plain" else shard_dir(root_, b1), key), key=key, val=val,
+                                             chunks=1, w=0, mode=0o444, mt_ago=500.0, at_ago=620.0)
+    errs = {"open": ["ESTALE", "EIO", "ENOENT"], "stat": ["ESTALE", "EIO"], "utimens": ["ESTALE", "EIO"], "lseek": ["EIO"], "read": ["EIO"],
+            "link": ["EIO"], "unlink": ["EIO"], "*": []}
+    for rkind in ("plain", "sharded"):
+        rspec = plain("R1") if rkind == "plain" else {"kind": "sharded", "dir": "@TOP@/R1", "shards": 2}
+        world = [plant("R1", rkind, "kr", "ro"), plant("R2", "plain", "kr", "ro"), plant("R2", "plain", "k2", "ro2")]
+        if rkind == "sharded":
+            world.append(op("mkdir", path="@TOP@/" + shard_dir("R1", a1)))
+        fronts_ = [("ro", ro([rspec, plain("R2")], "none"), ["get", "touch"]),
+                   ("stack", stack(plain("W", 100), [rspec, plain("R2")], "none"), ["get", "touch", "ensure", "gou"]),
+                   ("stacksh", stack(sharded("W", 2, 100), [rspec], "none"), ["get", "touch", "ensure"])]
+        for fname, cache, apis in fronts_:
+            prog = []
+            for api in apis:
+                for key in ("kr", "k2", "absent"):
+                    o = op(api, key, **hk)
+                    if api == "gou":
+                        o["judge"] = "promote"
+                    prog.append(o)
+            v = seq_stage(part(1, cache, with_vals(prog, 1), NEVER))
+            v["victim"] = True
+            cfg = {"roots": roots_of(cache), "front": cache["kind"]}
+            j = job("C15-fault-%s-%s" % (fname, rkind), [seq_stage(part(9, plain("SRC/none"), world, NEVER)), v], cfg,
+                    {"kind": "fault", "part": 1, "runs": Q(160, 2000), "errnos": errs}, fam="%s:%s:failing-calls" % (fname, rkind))
+            jobs.append(j)
+    return jobs
+
+
 def check_C15(work):
-    return matrix_check(work, "C15", ["ROUntouched", "StackOK"], ("none", "eq"), Q(0.15, 0.6),
+    return matrix_check(work, "C15", ["ROUntouched", "StackOK"], ("none", "eq"), Q(0.15, 0.6), extra_jobs=c15_fault_jobs(), rule=
                         "the matrix of Stack.tla (incl. missing read-only directories, promotion, replacement, misses) and ReadOnlyCache alone: no mutating call "
                         "may target a read-only root and snapshots of those roots are equal up to atime after every step (ROUntouched)")
 
